@@ -108,3 +108,43 @@ fn c10_large_inputs_disassemble() {
     }
     println!("CASES c10_large 5");
 }
+
+/// every offset holds what its byte class says: an instruction boundary re-encodes to its own byte (a complete PUSHn to
+/// opcode + immediate), an immediate of a complete push is silent padding, a cut-short push and its data are single bytes
+#[test]
+fn c10_entries_match_the_byte_classes() {
+    std::panic::set_hook(Box::new(|_| {}));
+    let mut inputs: Vec<Vec<u8>> = vec![];
+    for a in 0..=255u8 { inputs.push(vec![a]); for b in [0x00u8, 0x5b, 0x60, 0x7f, 0xfe] { inputs.push(vec![a, b]); inputs.push(vec![a, b, 0x5b]); } }
+    for n in 1..=32usize { for k in 0..=n + 1 { let mut v = vec![0x01, 0x5f + n as u8]; v.extend(std::iter::repeat(0x5b).take(k)); inputs.push(v); } }
+    let mut rng = Rng::seeded(1010);
+    for _ in 0..300 { let n = 1 + rng.below(80) as usize; inputs.push((0..n).map(|_| [0x60u8, 0x61, 0x7f, 0x5b, 0x00, 0x01, 0x56, 0xff][rng.below(8) as usize]).collect()); }
+    let mut cases = 0;
+    for v in inputs {
+        let Ok(Ok(is)) = std::panic::catch_unwind(|| InstructionStream::try_from(v.as_slice())) else { continue };
+        let t = is.new_thread(0).unwrap();
+        let mut i = 0usize;
+        while i < v.len() {
+            let b = v[i];
+            let enc = |j: usize| t.instruction(j as u32).map(|o| o.as_ref().encode()).unwrap_or_default();
+            if (0x60..=0x7f).contains(&b) {
+                let n = (b - 0x5f) as usize;
+                if i + n + 1 <= v.len() {
+                    // complete push
+                    let want: Vec<u8> = v[i..=i + n].to_vec();
+                    if enc(i) != want { witness("C10", "dis.complete_push_is_a_push", format!("{v:02x?} offset {i}"), format!("{:02x?}", enc(i)), format!("{want:02x?}")); }
+                    for j in i + 1..=i + n { if !enc(j).is_empty() { witness("C10", "dis.immediates_are_nop", format!("{v:02x?} offset {j}"), format!("{:02x?}", enc(j)), "[]".into()); } }
+                    i += n + 1;
+                    continue;
+                }
+                // cut short: the opcode and every byte present are single Invalid bytes
+                for j in i..v.len() { if enc(j) != vec![v[j]] { witness("C10", "dis.truncated_push_is_invalid_bytes", format!("{v:02x?} offset {j}"), format!("{:02x?}", enc(j)), format!("[{:02x}]", v[j])); } }
+                break;
+            }
+            if enc(i) != vec![b] { witness("C10", "dis.boundary_reencodes_to_its_byte", format!("{v:02x?} offset {i}"), format!("{:02x?}", enc(i)), format!("[{b:02x}]")); }
+            i += 1;
+        }
+        cases += 1;
+    }
+    println!("CASES c10_classes {cases}");
+}
